@@ -250,7 +250,7 @@ func (m *Machine) allTags() []string {
 			}
 		}
 		for _, l := range m.fc.Loops {
-			for _, e := range append(append([]*Clause{}, l.Invariants...), l.Iters...) {
+			for _, e := range append(append(append([]*Clause{}, l.Invariants...), l.Iters...), l.Exits...) {
 				for _, t := range e.Tags {
 					set[t] = true
 				}
@@ -530,9 +530,12 @@ func (m *Machine) applyContract(st *State, fr *Frame, instr ssa.Instruction, fc 
 		st.assume(t)
 	}
 	st.definable = saved
-	if fc.Events || true {
-		m.addEvent(st, name, args, rets)
+	evArgs := args
+	if fval != nil {
+		// dynamic call: the invoked function value is recorded after the arguments
+		evArgs = append(append([]Value{}, args...), fval)
 	}
+	m.addEvent(st, name, evArgs, rets)
 	return rets
 }
 
@@ -891,7 +894,7 @@ func (m *Machine) enterLoopHeader(st *State, fr *Frame, from, header *ssa.BasicB
 		}
 		return true
 	}
-	if spec == nil || (spec.Unroll == 0 && len(spec.Invariants) == 0 && len(spec.Iters) == 0) {
+	if spec == nil || (spec.Unroll == 0 && len(spec.Invariants) == 0 && len(spec.Iters) == 0 && len(spec.Exits) == 0) {
 		m.problem("loop %d of %s has neither invariant nor unroll bound", ord, relName(fr.fn))
 		st.dead = true
 		return false
@@ -1453,6 +1456,13 @@ func (m *Machine) frameCheck(st *State, fr *Frame, ins ssa.Instruction, p *Ptr, 
 			alts = append(alts, m.ctx.Eq(a.Ref, p.Ref))
 		}
 	}
+	if p.Ref != nil && p.Path == "*" {
+		alts = append(alts, m.ctx.Eq(p.Ref, m.ctx.Int(0))) // elements of a nil slice: none
+	}
+	if p.Ref != nil {
+		// objects allocated after the function was entered (by it or by its callees) are not part of the caller's frame
+		alts = append(alts, m.ctx.ILt(m.ctx.IntBig(new(big.Int).Add(freshBase, big.NewInt(int64(m.entryFresh(st))))), p.Ref))
+	}
 	ord := "callee"
 	if ins != nil {
 		ord = fmt.Sprint(m.ordinal(fr.fn, ins, ""))
@@ -1462,4 +1472,64 @@ func (m *Machine) frameCheck(st *State, fr *Frame, ins ssa.Instruction, p *Ptr, 
 		loc += "." + p.Path
 	}
 	m.oblige(st, fr, "frame", fmt.Sprintf("%s.%s", mangle(loc), ord), m.ctx.Or(alts...), m.allTags(), "write to "+loc+" ("+what+") is covered by the assigns clause")
+}
+
+// loopExits: control leaves loop(s) on the edge from -> target; evaluate their exit clauses.
+func (m *Machine) loopExits(st *State, fr *Frame, from, target *ssa.BasicBlock) {
+	if st.pure || m.refute {
+		return
+	}
+	li := m.loopInfoOf(fr.fn)
+	for _, h := range li.headers {
+		// the loop is left when control reaches the block that follows it (the header's successor
+		// outside the body, which is also where break statements jump to)
+		isDone := false
+		for _, sblk := range h.Succs {
+			if !li.body[h][sblk] && sblk == target {
+				isDone = true
+			}
+		}
+		if !isDone || from == target {
+			continue
+		}
+		cut := fr.cuts[h.Index]
+		ord := li.ord[h]
+		spec := m.loopSpec(fr.fn, ord)
+		if cut == nil || spec == nil || len(spec.Exits) == 0 {
+			continue
+		}
+		bind := m.currentBindings(st, fr)
+		for k, v := range cut.lets {
+			bind[k] = v
+		}
+		savedBase := st.evBase
+		st.evBase = cut.evBase
+		for i, it := range spec.Exits {
+			if m.onlyProp != "" {
+				tg := it.Tags
+				if len(tg) == 0 {
+					tg = m.safeTagsFor(fr.fn)
+				}
+				if !hasTag(tg, m.onlyProp) {
+					continue
+				}
+			}
+			m.localBindingsAt(st, fr, from, h, paramNames(it), bind)
+			v, ok := m.evalClause(st, it, bind)
+			if !ok {
+				continue
+			}
+			t := it.Tags
+			if len(t) == 0 {
+				t = m.safeTagsFor(fr.fn)
+			}
+			label := it.Label
+			if label == "" {
+				label = fmt.Sprint(i)
+			}
+			m.noteAntecedent(st, it, fmt.Sprintf("cover.exit.loop%d.%s", ord, label), bind)
+			m.recordOrOblige(st, fr, "exit", fmt.Sprintf("loop%d.%s", ord, label), v.(*Term), t, it.Raw+"  ["+it.Line+"]")
+		}
+		st.evBase = savedBase
+	}
 }
